@@ -11,12 +11,12 @@ ASSUMPTIONS = ["ties may resolve either way: only a strictly greater pending pri
 
 
 def strat_yield(tier):
-    return gen.programs(gen.Cfg(max_tasks=12 if tier == "quick" else 40, sync=False, ctx=("rec",), dag=True, flush_faults=("raise", "hard"),
+    return gen.programs(gen.Cfg(max_tasks=12 if tier == "quick" else 40, sync=False, ctx=("rec",), dag=True, flush_faults=("raise", "hard", "nested"), cancels=True,
                                 shapes=("comb", "comb", "tree", "stagger", "stagger", "diamond", "free", "chain")))
 
 
 def strat_sync(tier):
-    return gen.programs(gen.Cfg(max_tasks=12 if tier == "quick" else 40, sync=True, ctx=("rec",), dag=False, flush_faults=("raise", "hard"),
+    return gen.programs(gen.Cfg(max_tasks=12 if tier == "quick" else 40, sync=True, ctx=("rec",), dag=False, flush_faults=("raise", "hard", "nested"), cancels=True,
                                 convs=("call", "value", "wrapper"), shapes=("reentry", "reentry", "reentry", "free", "comb")))
 
 
@@ -34,6 +34,8 @@ def check(prog, ctx):
     ctx.label("flush-fault-hit", any(isinstance(a, list) for a in env.item_action.values()))
     ctx.label("hard-flush-hit", env.outcome[0] == "exc" and env.outcome[1][:1] == ["hard"] or any(e and e[0] in ("caught", "syncexc") and isinstance(e[1], list) and e[1][:1] == ["hard"] for rec in env.recs.values() for e in rec.got))
     ctx.label("unset-item", any(a == "unset" for a in env.item_action.values()))
+    ctx.label("pending-batch-cancelled", env.ncancelled > 0)
+    ctx.label("flush-body-calls-asynq", len(env.probes) > 0)
     ctx.label("flushes>=3", len(env.flushes) >= 3)
     ctx.label("shape=" + prog.get("shape", "?"))
     ctx.nontrivial(prog, env.ncands >= 2 or (not env.yield_only and len(env.flushes) >= 2))
